@@ -5,6 +5,7 @@ import (
 	"io"
 	"net"
 	"os"
+	"runtime"
 	"sync"
 	"sync/atomic"
 	"time"
@@ -33,12 +34,20 @@ type Proxy struct {
 	// PauseUp stops forwarding (and reading) the client->server direction: the client's kernel
 	// buffers and then its write queue fill up. ClientRcvBuf > 0 shrinks the receive buffer of
 	// accepted connections so that this takes less data.
-	PauseUp      atomic.Bool
-	PauseDown    atomic.Bool // the same for the server->client direction (ServerRcvBuf for the proxy's socket towards the server)
-	ClientRcvBuf int         // set before the first connection is made (the accept loop reads them)
+	PauseUp   atomic.Bool
+	PauseDown atomic.Bool // the same for the server->client direction (ServerRcvBuf for the proxy's socket towards the server)
+	// Fragment > 0: every forwarded chunk is written in pieces of 1..Fragment bytes (a fixed cycle of
+	// sizes with many tiny ones), yielding between the pieces: the receiver sees the byte stream in
+	// arbitrary segments, as TCP allows (frame headers and bodies split across reads)
+	Fragment     atomic.Int64
+	Pieces       atomic.Int64
+	ClientRcvBuf int // set before the first connection is made (the accept loop reads them)
 	ServerRcvBuf int
 	bufMu        sync.Mutex
 }
+
+// fragSizes is the cycle of piece sizes of a fragmenting proxy.
+var fragSizes = []int{1, 2, 3, 1, 5, 2, 7, 64, 3, 1, 2, 200, 4, 1, 3, 1500, 2, 1, 11, 6}
 
 // CutPlan cuts a connection after a number of bytes in one direction.
 type CutPlan struct {
@@ -174,6 +183,7 @@ func (p *Proxy) serve(c net.Conn) {
 func (p *Proxy) pipe(pc *pconn, src, dst net.Conn, up bool, plan *CutPlan) {
 	buf := make([]byte, 32<<10)
 	var total int64
+	fragPos := 0
 	for {
 		for ((up && p.PauseUp.Load()) || (!up && p.PauseDown.Load())) && !pc.closed.Load() && !p.closed.Load() {
 			time.Sleep(200 * time.Microsecond)
@@ -187,7 +197,30 @@ func (p *Proxy) pipe(pc *pconn, src, dst net.Conn, up bool, plan *CutPlan) {
 				cut = true
 				pc.doomed.Store(true)
 			}
-			if len(chunk) > 0 {
+			if f := int(p.Fragment.Load()); f > 0 && len(chunk) > 0 {
+				rest := chunk
+				for len(rest) > 0 {
+					k := fragSizes[fragPos%len(fragSizes)]
+					fragPos++
+					if k > f {
+						k = 1 + k%f
+					}
+					if k > len(rest) {
+						k = len(rest)
+					}
+					if _, werr := dst.Write(rest[:k]); werr != nil {
+						pc.kill(false)
+						return
+					}
+					rest = rest[k:]
+					p.Pieces.Add(1)
+					if fragPos%4 == 0 {
+						time.Sleep(time.Microsecond)
+					} else {
+						runtime.Gosched()
+					}
+				}
+			} else if len(chunk) > 0 {
 				if _, werr := dst.Write(chunk); werr != nil {
 					pc.kill(false)
 					return
